@@ -226,6 +226,87 @@ func runC16(c *rt.Ctx) {
 			}
 		}
 	}
+	// (d) one backend connection used for keys of different lengths, one after the other (short,
+	// long, short again and the reverse): the entry size is a function of the key length of the
+	// command at hand, never of what the connection stored before
+	mixLens := []int{1, 2, 64, 125, 249, 250}
+	if c.Thorough() {
+		mixLens = []int{1, 2, 3, 31, 63, 64, 65, 124, 125, 126, 200, 248, 249, 250}
+	}
+	for _, kl1 := range mixLens {
+		for _, kl2 := range mixLens {
+			if kl1 == kl2 {
+				continue
+			}
+			item++
+			if !c.Mine(item) {
+				continue
+			}
+			if c.Expired() {
+				return
+			}
+			mk := func(kl, salt int) string {
+				kb := wire.GenValue(kl, kl*3+salt)
+				for i := range kb {
+					kb[i] = 'a' + kb[i]%26
+				}
+				return string(kb)
+			}
+			k1, k2 := mk(kl1, 11), mk(kl2, 12)
+			p1, p2 := payloadFor(kl1), payloadFor(kl2)
+			for _, n1 := range []int{1, 2, 3} {
+				for _, n2 := range []int{1, 2, 3} {
+					for shape := 0; shape < 2; shape++ {
+						v1, v2 := n1*p1, n2*p2
+						if shape == 1 {
+							v1, v2 = (n1-1)*p1+1, (n2-1)*p2+1
+						}
+						keys := []string{k1, k2, k1, k2}
+						vlens := []int{v1, v2, v1 + 1, v2 - 1}
+						kinds := []string{"set", "set", "set", "replace"}
+						var ops []wire.Op
+						for i := range keys {
+							ops = append(ops, wire.Op{Kind: kinds[i], Key: keys[i], VGen: true, VLen: vlens[i], VSeed: vlens[i] + i, Flags: 1, Spare: (kl1+i)%2 == 0})
+						}
+						sc := ChunkScenario{Harness: "C16", Ops: ops}
+						var r *ChunkResult
+						var clause, detail string
+						bad := -1
+						InBubble(c.T, func() {
+							starts := make([]int, len(ops)+1)
+							r = RunChunk(sc, ChunkOpts{KeepLog: true, AfterEach: func(i int, op wire.Op, st *fakemcStore, m *refModel, res HRes) (string, string) {
+								starts[i+1] = len(st.Log)
+								return "", ""
+							}})
+							for i := range ops {
+								if starts[i+1] < starts[i] || starts[i+1] > len(r.Store.Log) {
+									continue // the run stopped early: r.Findings says why
+								}
+								cl, d, dl := checkChunkDiscipline(keys[i], vlens[i], r.Store.Log[starts[i]:starts[i+1]])
+								if cl == "" && dl >= 0 && dl != slabBudget-71-len(keys[i]) {
+									cl, d = "size-formula", fmt.Sprintf("data entry value length %d, expected %d", dl, slabBudget-71-len(keys[i]))
+								}
+								if cl != "" {
+									clause, detail, bad = cl, d, i
+									return
+								}
+							}
+						})
+						c.Eval(1)
+						c.Trace(1)
+						c.Distinct(fmt.Sprintf("mix|%d|%d|%d|%d|%d", kl1, kl2, n1, n2, shape))
+						c.Nontrivial(fmt.Sprintf("mix|%d|%d|%d|%d|%d", kl1, kl2, n1, n2, shape))
+						for _, f := range r.Findings {
+							c.Violation(f.Sig, f.What, sc)
+						}
+						if clause != "" {
+							c.Violation("C16 "+clause+" mixed-key-lengths", fmt.Sprintf("one connection, key lengths %d then %d, command %d (%s, key length %d, value length %d): %s", kl1, kl2, bad, kinds[bad], len(keys[bad]), vlens[bad], detail), sc)
+						}
+					}
+				}
+			}
+		}
+	}
 	for _, kl := range dense {
 		p := payloadFor(kl)
 		for n := 1; n <= 999; n++ {
